@@ -195,6 +195,21 @@ where
             let param = ValidationErrorKind::IndexMagicByte;
             return Err(Error::validation(param, "Index magic byte is not valid").into());
         }
+        // The header can be intact while the file is cut somewhere inside the tree or the leaves
+        let records_size = (self.header.records_count as u64).saturating_mul(self.header.record_header_size as u64);
+        let expected_size = self.metadata.leaves_offset.saturating_add(records_size);
+        if self.file.size() < expected_size || self.metadata.tree_offset > self.metadata.leaves_offset {
+            let param = ValidationErrorKind::IndexChecksum;
+            return Err(Error::validation(
+                param,
+                format!(
+                    "Index file is truncated: size is {}, but header describes {} bytes",
+                    self.file.size(),
+                    expected_size
+                ),
+            )
+            .into());
+        }
         Ok(())
     }
 
@@ -433,7 +448,7 @@ where
     }
 
     async fn read_root(file: &File, root_offset: u64) -> Result<BytesMut> {
-        let buf_size = std::cmp::min((file.size() - root_offset) as usize, BLOCK_SIZE);
+        let buf_size = std::cmp::min(file.size().saturating_sub(root_offset) as usize, BLOCK_SIZE);
         let mut buf = BytesMut::zeroed(BLOCK_SIZE);
         buf.resize(buf_size, 0);
         let mut buf = file.read_exact_at(buf, root_offset).await?;
